@@ -264,9 +264,41 @@ Theorem c17_el_partitioned_stops : forall cfg, NoDup (cfg_nodes cfg) -> forall s
 Proof. exact partitioned_stops. Qed.
 Print Assumptions c17_el_partitioned_stops.
 
-(* FINDING 3: the healthCheck case can kill the run goroutine (nil dereference in
-   gcProxySessions) when the leader's node list does not contain the receiver
-   and rehashSkipped is still set from an earlier episode *)
-Theorem c17_el_health_never_panics_refuted : ~ health_never_panics_statement cfg3.
-Proof. exact health_never_panics_refuted. Qed.
-Print Assumptions c17_el_health_never_panics_refuted.
+(* the healthCheck case never kills the run goroutine: with the nil check of
+   gcProxySessionsForNode (fix applied to /repo, findings/C17_nilcheck.diff) the
+   handler completes in every state, for every message, hence in every execution *)
+Theorem c17_el_health_never_panics : forall cfg evs idx, health_panics cfg (run cfg evs) idx = false.
+Proof. exact health_never_panics. Qed.
+Print Assumptions c17_el_health_never_panics.
+
+(* nor does the leader's own gcProxySessions call in sendHealthChecks (its list starts with itself) *)
+Theorem c17_el_leader_gc_never_panics : forall repaired cfg n rest,
+  leader_gc_panics repaired cfg n (n :: rest) = false.
+Proof. exact leader_gc_never_panics. Qed.
+Print Assumptions c17_el_leader_gc_never_panics.
+
+(* FIXED FINDING: the code before the fix.  It panics exactly when the rehash
+   branch is taken with a node list that does not contain the receiver ... *)
+Theorem c17_el_health_panics_unrepaired_iff : forall cfg s idx,
+  health_panics_unrepaired cfg s idx = true <->
+  exists h, nth_error (hnet s) idx = Some h /\
+    let l := loc s (h_to h) in
+    electing l = None /\ term l <= h_term h /\
+    list_eqb (h_sig h) (sig_of (ring_nodes l)) = false /\ rehash_skipped l = true /\
+    mem (h_to h) (h_nodes h) = false.
+Proof. exact health_panics_unrepaired_iff. Qed.
+Print Assumptions c17_el_health_panics_unrepaired_iff.
+
+(* ... which is reachable: a follower dropped from the active list twice *)
+Theorem c17_el_health_never_panics_unrepaired_refuted : ~ health_never_panics_unrepaired_statement cfg3.
+Proof. exact health_never_panics_unrepaired_refuted. Qed.
+Print Assumptions c17_el_health_never_panics_unrepaired_refuted.
+
+(* an unrepaired execution that has not panicked is an execution of the repaired
+   step function, so everything above holds for it too; e.g. safety *)
+Theorem c17_el_safety_unrepaired : forall cfg, NoDup (cfg_nodes cfg) -> forall evs s n n',
+  run_unrepaired cfg evs = Some s ->
+  leader (loc s n) = Some n -> leader (loc s n') = Some n' ->
+  term (loc s n) = term (loc s n') -> n = n'.
+Proof. exact safety_unrepaired. Qed.
+Print Assumptions c17_el_safety_unrepaired.
